@@ -471,6 +471,11 @@ def main(tier, replay=None):
     if replay:
         return do_replay(run, replay)
     proof_ok = run.proof_stage()
+    # second tie (Bmad-X / conversions): re-translated from REPO's source and proved equal to Bmadx/*.v, Beam/SI.v (Gen/BmadxGenEquiv.v)
+    import translate_stage
+    trx = translate_stage.translator_obligation_bmadx(run)
+    if trx["status"] != "ok":
+        run.notes.append("translator obligation (bmadx): " + json.dumps(translate_stage.replay_fields_bmadx(trx))[:600])
     if not proof_ok:
         run.notes.append(run.proof_problem)
     meV, mkg, c, mc = consts()
@@ -568,6 +573,9 @@ def main(tier, replay=None):
         run.violation({"kind": "correspondence", "broken": f"Coq model of the conversion ({what}) disagrees with the implementation",
                        "case": cases[ci][0], "observed": cases[ci][1], "goal": goals[i][0], "coq_error": errs.get(i, "")[-400:],
                        "n_failing_goals": len(failing)}, no_input=True)
+    elif trx["status"] != "ok":
+        # the Bmad-X / conversion source no longer translates to the proved model; none of this run's oracles found a failing input
+        run.violation(translate_stage.replay_fields_bmadx(trx), no_input=True)
     elif not proof_ok:
         run.violation({"kind": "proof", "broken": run.proof_problem}, no_input=True)
     return run.finish("proof")
